@@ -6,11 +6,15 @@
    released), QueueInner::insert / remove and StreamWaker::wake_by_ref as actions of "other
    threads".  reg[k] is the ticket (+1; 0 = none) of the StreamWaker the source of k currently
    holds, fire[k] says the source has decided to call it, notified is the receiver task's pending
-   wake-up.  Dev is a set of named deviations: with Dev = {} the module describes the code as it is;
+   wake-up.  live[k] is the ticket (+1; 0 = none) of the ONE valid ready event of k (QueueInner::queued):
+   a heap entry with another ticket is stale and discarded when popped; npend counts the Pending answers
+   within the current call of poll_next (the call gives control back once every stream has had a turn);
+   exh says the runtime's cooperative budget of the receiver task is spent: every stream then answers
+   Pending after waking its own waker, until the task is polled again.  Dev is a set of named deviations: with Dev = {} the module describes the code as it is;
    each deviation is a realistic way of getting the mechanism wrong and must be caught by the
    properties below (sensitivity of the specification, see MC_FairQueue_*.cfg).              *)
 EXTENDS Naturals, Sequences, FiniteSets, TLC
-CONSTANTS Keys, MaxItems, MaxTicket, MaxStale, AllowRemove, Dev
+CONSTANTS Keys, MaxItems, MaxTicket, MaxStale, MaxExh, AllowRemove, Dev
 
 VARIABLES
   heap,      \* set of <<ticket, key, n>> ready events; n disambiguates duplicates
@@ -31,14 +35,20 @@ VARIABLES
   removed,   \* keys removed by peer_disconnected
   delivered, \* delivered[k]: count
   wait,      \* wait[k]: deliveries to others since k became ready and signalled
-  stale      \* number of stale (duplicate) wakes performed
+  stale,     \* number of stale (duplicate) wakes performed
+  live,      \* live[k]: 0 = k has no valid ready event, else ticket+1 of its valid event
+  npend,     \* Pending answers so far in the current call of poll_next
+  exh,       \* the receiver task's cooperative budget is spent (environment)
+  nexh,      \* number of budget exhaustions so far
+  had        \* had[k]: tickets of the StreamWakers k's source was ever polled with (it may keep clones of them)
 
 vars == <<heap, streams, counter, wslot, wcur, pc, cur, avail, left, closed, reg, fire, notified, joined,
-          removed, delivered, wait, stale>>
+          removed, delivered, wait, stale, live, npend, exh, nexh, had>>
+xv == <<live, npend, exh, nexh, had>>
 
 \* waking the waker in the slot reaches the receiver only if it belongs to the current future
 Wakes == wslot /\ wcur
-HasEv(k) == \E e \in heap : e[2] = k
+HasEv(k) == IF "dup_events" \in Dev THEN \E e \in heap : e[2] = k ELSE live[k] # 0     \* k has a (valid) turn pending
 MinEv == CHOOSE e \in heap : \A f \in heap : e[1] < f[1] \/ (e[1] = f[1] /\ e[3] <= f[3])
 NextDup(t, k) == Cardinality({e \in heap : e[1] = t /\ e[2] = k})
 
@@ -47,6 +57,7 @@ Init ==
   /\ avail = [k \in Keys |-> 0] /\ left = [k \in Keys |-> MaxItems] /\ closed = [k \in Keys |-> FALSE]
   /\ reg = [k \in Keys |-> 0] /\ fire = [k \in Keys |-> FALSE] /\ notified = FALSE /\ joined = {}
   /\ removed = {} /\ delivered = [k \in Keys |-> 0] /\ wait = [k \in Keys |-> 0] /\ stale = 0
+  /\ live = [k \in Keys |-> 0] /\ npend = 0 /\ exh = FALSE /\ nexh = 0 /\ had = [k \in Keys |-> {}]
 
 \* ---- other threads ---------------------------------------------------------------------------
 Insert(k) ==       \* QueueInner::insert under the lock (peer_connected)
@@ -54,9 +65,10 @@ Insert(k) ==       \* QueueInner::insert under the lock (peer_connected)
   /\ joined' = joined \cup {k}
   /\ streams' = streams \cup {k}
   /\ heap' = heap \cup {<<counter, k, 0>>}
+  /\ live' = [live EXCEPT ![k] = counter + 1]                                        \* push_event
   /\ counter' = counter + 1
   /\ notified' = IF "insert_no_wake" \in Dev THEN notified ELSE (notified \/ Wakes)  \* wake_by_ref, slot kept
-  /\ UNCHANGED <<wslot, pc, cur, avail, left, closed, reg, fire, removed, delivered, wait, stale>>
+  /\ UNCHANGED <<wslot, pc, cur, avail, left, closed, reg, fire, removed, delivered, wait, stale, npend, exh, nexh, had>>
   /\ UNCHANGED wcur
 
 Produce(k) ==      \* bytes of one more complete message arrive on k's transport
@@ -64,41 +76,55 @@ Produce(k) ==      \* bytes of one more complete message arrive on k's transport
   /\ left' = [left EXCEPT ![k] = @ - 1]
   /\ avail' = [avail EXCEPT ![k] = @ + 1]
   /\ fire' = [fire EXCEPT ![k] = (reg[k] # 0)]
-  /\ UNCHANGED <<heap, streams, counter, wslot, pc, cur, closed, reg, notified, joined, removed, delivered, wait, stale>>
+  /\ UNCHANGED <<heap, streams, counter, wslot, pc, cur, closed, reg, notified, joined, removed, delivered, wait, stale, xv>>
   /\ UNCHANGED wcur
 
 Close(k) ==
   /\ k \in joined /\ ~closed[k]
   /\ closed' = [closed EXCEPT ![k] = TRUE]
   /\ fire' = [fire EXCEPT ![k] = (reg[k] # 0)]
-  /\ UNCHANGED <<heap, streams, counter, wslot, pc, cur, avail, left, reg, notified, joined, removed, delivered, wait, stale>>
+  /\ UNCHANGED <<heap, streams, counter, wslot, pc, cur, avail, left, reg, notified, joined, removed, delivered, wait, stale, xv>>
   /\ UNCHANGED wcur
+
+\* StreamWaker::wake_by_ref with ticket t: queue the event unless k already has a valid one
+WakePush(k, t) ==
+  IF "dup_events" \in Dev \/ live[k] = 0
+    THEN heap' = heap \cup {<<t, k, NextDup(t, k)>>} /\ live' = [live EXCEPT ![k] = t + 1]
+    ELSE UNCHANGED <<heap, live>>
 
 Fire(k) ==         \* StreamWaker::wake_by_ref, under the queue lock
   /\ fire[k] /\ reg[k] # 0
-  /\ LET t == reg[k] - 1 IN heap' = heap \cup {<<t, k, NextDup(t, k)>>}
+  /\ WakePush(k, reg[k] - 1)
   /\ reg' = [reg EXCEPT ![k] = 0]
   /\ fire' = [fire EXCEPT ![k] = FALSE]
   /\ notified' = (notified \/ Wakes)
   /\ wslot' = IF "waker_not_taken" \in Dev THEN wslot ELSE FALSE      \* waker.take()
-  /\ UNCHANGED <<streams, counter, pc, cur, avail, left, closed, joined, removed, delivered, wait, stale>>
+  /\ UNCHANGED <<streams, counter, pc, cur, avail, left, closed, joined, removed, delivered, wait, stale, npend, exh, nexh, had>>
   /\ UNCHANGED wcur
 
-StaleFire(k) ==    \* a source wakes an old clone of a StreamWaker again (spurious / duplicate wake)
-  /\ stale < MaxStale /\ k \in joined /\ delivered[k] > 0
-  /\ \E t \in 0..(counter - 1) :
-        /\ heap' = heap \cup {<<t, k, NextDup(t, k)>>}
+\* a source wakes an old clone of a StreamWaker again (late, duplicate or spurious wake-up: allowed by the waker
+\* contract; tokio does it when readiness arrives between registering the waker and re-checking)
+StaleFireT(k, t) ==
+  /\ stale < MaxStale /\ k \in joined /\ t \in had[k]
+  /\ WakePush(k, t)
   /\ stale' = stale + 1
   /\ notified' = (notified \/ Wakes)
   /\ wslot' = FALSE
-  /\ UNCHANGED <<streams, counter, pc, cur, avail, left, closed, reg, fire, joined, removed, delivered, wait>>
+  /\ UNCHANGED <<streams, counter, pc, cur, avail, left, closed, reg, fire, joined, removed, delivered, wait, npend, exh, nexh, had>>
   /\ UNCHANGED wcur
+StaleFire(k) == \E t \in had[k] : StaleFireT(k, t)
+
+Exhaust ==         \* the receiver task's cooperative budget runs out in the middle of a call
+  /\ nexh < MaxExh /\ ~exh /\ pc \in {"l1", "poll", "l3"}
+  /\ exh' = TRUE /\ nexh' = nexh + 1
+  /\ UNCHANGED <<heap, streams, counter, wslot, wcur, pc, cur, avail, left, closed, reg, fire, notified, joined, removed,
+                 delivered, wait, stale, live, npend, had>>
 
 Remove(k) ==       \* QueueInner::remove (peer_disconnected); only while k is not checked out
   /\ AllowRemove /\ k \in streams
   /\ streams' = streams \ {k}
   /\ removed' = removed \cup {k}
-  /\ UNCHANGED <<heap, counter, wslot, pc, cur, avail, left, closed, reg, fire, notified, joined, delivered, wait, stale>>
+  /\ UNCHANGED <<heap, counter, wslot, pc, cur, avail, left, closed, reg, fire, notified, joined, delivered, wait, stale, xv>>
   /\ UNCHANGED wcur
 
 \* ---- receiver task ---------------------------------------------------------------------------
@@ -106,37 +132,49 @@ Begin ==           \* application calls recv / executor re-polls after a wake
   /\ \/ pc = "idle"
      \/ pc = "parked" /\ notified
   /\ pc' = "l1" /\ notified' = FALSE
-  /\ UNCHANGED <<heap, streams, counter, wslot, cur, avail, left, closed, reg, fire, joined, removed, delivered, wait, stale>>
+  /\ npend' = 0 /\ exh' = FALSE                     \* a new poll of the task: fresh budget
+  /\ UNCHANGED <<heap, streams, counter, wslot, cur, avail, left, closed, reg, fire, joined, removed, delivered, wait, stale, live, nexh, had>>
   /\ UNCHANGED wcur
 
 Cancel ==          \* the recv future is dropped while parked (select!, timeout, proxy); the next call has a new waker
   /\ pc = "parked"
   /\ pc' = "idle" /\ wcur' = FALSE
-  /\ UNCHANGED <<heap, streams, counter, wslot, cur, avail, left, closed, reg, fire, notified, joined, removed, delivered, wait, stale>>
+  /\ UNCHANGED <<heap, streams, counter, wslot, cur, avail, left, closed, reg, fire, notified, joined, removed, delivered, wait, stale, xv>>
 
-L1 ==              \* first critical section of one loop iteration
+L1 ==              \* first critical section of one loop iteration (pop_event discards stale entries one by one)
   /\ pc = "l1"
   /\ wslot' = TRUE                                                   \* inner.waker = Some(cx.waker().clone())
   /\ wcur' = IF "waker_kept_if_some" \in Dev /\ wslot THEN wcur ELSE TRUE
   /\ IF heap = {}
-       THEN /\ pc' = "parked" /\ UNCHANGED <<heap, streams, cur>>
-       ELSE LET e == MinEv IN
+       THEN /\ pc' = "parked" /\ UNCHANGED <<heap, streams, cur, live>>
+       ELSE LET e == MinEv
+                valid == "dup_events" \in Dev \/ live[e[2]] = e[1] + 1 IN
             /\ heap' = heap \ {e}
-            /\ IF e[2] \in streams
-                 THEN /\ streams' = streams \ {e[2]} /\ cur' = e /\ pc' = "poll"
-                 ELSE /\ UNCHANGED <<streams, cur>> /\ pc' = "l1"
-  /\ UNCHANGED <<counter, avail, left, closed, reg, fire, notified, joined, removed, delivered, wait, stale>>
+            /\ IF ~valid THEN UNCHANGED <<streams, cur, live>> /\ pc' = "l1"
+               ELSE /\ live' = [live EXCEPT ![e[2]] = 0]
+                    /\ IF e[2] \in streams
+                         THEN /\ streams' = streams \ {e[2]} /\ cur' = e /\ pc' = "poll"
+                         ELSE /\ UNCHANGED <<streams, cur>> /\ pc' = "l1"
+  /\ UNCHANGED <<counter, avail, left, closed, reg, fire, notified, joined, removed, delivered, wait, stale, npend, exh, nexh, had>>
 
 PollStream ==      \* stream polled outside the lock with StreamWaker(cur)
   /\ pc = "poll"
   /\ LET k == cur[2] IN
-     IF avail[k] > 0
-       THEN /\ avail' = [avail EXCEPT ![k] = @ - 1] /\ pc' = "l2" /\ UNCHANGED <<reg, fire, cur>>
-       ELSE IF closed[k]
-         THEN /\ pc' = "l1" /\ cur' = <<>> /\ UNCHANGED <<avail, reg, fire>>   \* Ready(None): drop stream
-         ELSE /\ reg' = [reg EXCEPT ![k] = cur[1] + 1] /\ fire' = [fire EXCEPT ![k] = FALSE]
-              /\ pc' = "l3" /\ UNCHANGED <<avail, cur>>
-  /\ UNCHANGED <<heap, streams, counter, wslot, left, closed, notified, joined, removed, delivered, wait, stale>>
+     IF exh
+       THEN \* budget spent: the transport wakes the waker it was polled with and answers Pending
+            /\ WakePush(k, cur[1])
+            /\ notified' = (notified \/ Wakes)
+            /\ wslot' = IF "waker_not_taken" \in Dev THEN wslot ELSE FALSE
+            /\ pc' = "l3" /\ UNCHANGED <<avail, reg, fire, cur>>
+       ELSE /\ UNCHANGED <<heap, live, notified, wslot>>
+            /\ IF avail[k] > 0
+                 THEN /\ avail' = [avail EXCEPT ![k] = @ - 1] /\ pc' = "l2" /\ UNCHANGED <<reg, fire, cur>>
+                 ELSE IF closed[k]
+                   THEN /\ pc' = "l1" /\ cur' = <<>> /\ UNCHANGED <<avail, reg, fire>>   \* Ready(None): drop stream
+                   ELSE /\ reg' = [reg EXCEPT ![k] = cur[1] + 1] /\ fire' = [fire EXCEPT ![k] = FALSE]
+                        /\ pc' = "l3" /\ UNCHANGED <<avail, cur>>
+  /\ had' = IF MaxStale > 0 THEN [had EXCEPT ![cur[2]] = @ \cup {cur[1]}] ELSE had    \* (not tracked where no stale wake can use it)
+  /\ UNCHANGED <<streams, counter, left, closed, joined, removed, delivered, wait, stale, npend, exh, nexh>>
   /\ UNCHANGED wcur
 
 Signalled(k) == HasEv(k) \/ (cur # <<>> /\ cur[2] = k)
@@ -146,23 +184,27 @@ L2 ==              \* Ready(Some): re-queue with a fresh ticket, put the stream 
   /\ LET k == cur[2]
          t == IF "stale_ticket" \in Dev THEN cur[1] ELSE counter IN
      /\ heap' = heap \cup {<<t, k, NextDup(t, k)>>}
+     /\ live' = [live EXCEPT ![k] = t + 1]            \* push_event: supersedes an event queued by a wake-up inside the window
      /\ streams' = streams \cup {k}
      /\ delivered' = [delivered EXCEPT ![k] = @ + 1]
      /\ wait' = [j \in Keys |-> IF j = k THEN 0
                                ELSE IF j \in streams /\ avail[j] > 0 /\ HasEv(j) THEN wait[j] + 1 ELSE wait[j]]
   /\ counter' = counter + 1 /\ cur' = <<>> /\ pc' = "idle"
   /\ wcur' = FALSE                                   \* the call returns: its future (and waker) is finished
-  /\ UNCHANGED <<wslot, avail, left, closed, reg, fire, notified, joined, removed, stale>>
+  /\ UNCHANGED <<wslot, avail, left, closed, reg, fire, notified, joined, removed, stale, npend, exh, nexh, had>>
 
-L3 ==              \* Pending: put the stream back, continue with the next event
+L3 ==              \* Pending: put the stream back; continue with the next event, or yield once every stream had a turn
   /\ pc = "l3"
   /\ streams' = IF "pending_not_put_back" \in Dev THEN streams ELSE streams \cup {cur[2]}
-  /\ cur' = <<>> /\ pc' = "l1"
-  /\ UNCHANGED <<heap, counter, wslot, avail, left, closed, reg, fire, notified, joined, removed, delivered, wait, stale>>
+  /\ cur' = <<>> /\ npend' = npend + 1
+  /\ IF "no_yield" \notin Dev /\ npend' > Cardinality(streams')
+       THEN /\ pc' = "parked" /\ notified' = (notified \/ heap # {})     \* cx.waker().wake_by_ref() if events remain; return Pending
+       ELSE /\ pc' = "l1" /\ UNCHANGED notified
+  /\ UNCHANGED <<heap, counter, wslot, avail, left, closed, reg, fire, joined, removed, delivered, wait, stale, live, exh, nexh, had>>
   /\ UNCHANGED wcur
 
 Receiver == Begin \/ L1 \/ PollStream \/ L2 \/ L3
-Other == \E k \in Keys : Insert(k) \/ Produce(k) \/ Close(k) \/ Fire(k) \/ StaleFire(k) \/ Remove(k)
+Other == (\E k \in Keys : Insert(k) \/ Produce(k) \/ Close(k) \/ Fire(k) \/ StaleFire(k) \/ Remove(k)) \/ Exhaust
 Next == Other \/ Receiver \/ Cancel
 
 Spec == Init /\ [][Next]_vars
@@ -183,12 +225,20 @@ NoLostWakeup ==
 NoStreamLost ==
   \A k \in joined \ removed : (~closed[k] \/ avail[k] > 0) => (k \in streams \/ (cur # <<>> /\ cur[2] = k))
 
-\* a readable stream in the map always has a way to be noticed: an event or a registered waker
+\* a readable stream in the map always has a way to be noticed: a VALID event or a registered waker
 ReadyHasSignal == \A k \in joined : (k \in streams /\ avail[k] > 0) => (HasEv(k) \/ reg[k] # 0)
 
-\* C06(ii): bounded bypass; n-1 is what this mechanism achieves (2n is what layer A demands of the code)
-FairBoundTight == \A k \in Keys : wait[k] <= Cardinality(Keys) - 1 + stale
-FairBound == \A k \in Keys : wait[k] <= 2 * Cardinality(Keys) + stale
+\* one valid event per key: live[k] names an entry that is really in the heap
+LiveInHeap == \A k \in Keys : live[k] # 0 => \E e \in heap : e[2] = k /\ e[1] = live[k] - 1
+
+\* one call of poll_next polls at most (streams + 1) streams that answer Pending before it gives control back
+YieldBound == npend <= Cardinality(Keys) + 1
+
+\* C06(ii): bounded bypass; n-1 is what this mechanism achieves (4(n+1) is what layer A demands of the code);
+\* the bound does NOT grow with the number of late / duplicate wake-ups
+FairBoundTight == \A k \in Keys : wait[k] <= Cardinality(Keys) - 1
+FairBound == \A k \in Keys : wait[k] <= 2 * Cardinality(Keys)
+NpendCap == npend <= Cardinality(Keys) + 4       \* state constraint for the configuration with deviation no_yield
 
 \* liveness (under FairSpec, configurations without Remove): every readable message is eventually delivered
 Live == \A k \in Keys : [](avail[k] > 0 => <>(avail[k] = 0))
